@@ -855,12 +855,79 @@ def worker_kry(case, led):
                 _emit(led, rs, "expm_krylov", key, fields, rp, n > 1)
 
 
+# ========================================================================================================================= Davidson eigensolver
+def worker_dav(case, led):
+    """renormalizer.lib.davidson as the optimisers call it (matrix-free product, diagonal preconditioner, nroots 1..3, tol 1e-12, max_cycle 100):
+    every returned (e_k, x_k) is an eigenpair of the Hermitian matrix up to the solver's convergence, the values are the LOWEST eigenvalues in order, never below
+    them (Ritz values are upper bounds), the vectors are orthonormal; real symmetric and complex Hermitian matrices, degenerate and clustered low ends"""
+    _, family, n, cplx, nroots, seed, tier = case
+    from renormalizer.lib import davidson
+    rng = np.random.default_rng([seed, 190, n, int(cplx), nroots, sum(map(ord, family))])
+    Q = random_unitary(n, cplx, rng)
+    if family == "random":
+        ev = np.sort(rng.uniform(-2, 2, size=n))
+    elif family == "degenerate":        # the two lowest levels coincide
+        ev = np.sort(rng.uniform(-1, 2, size=n))
+        ev[1] = ev[0]
+    elif family == "clustered":
+        ev = np.sort(rng.uniform(0, 2, size=n))
+        ev[:3] = [-1.0, -1.0 + 1e-3, -1.0 + 2e-3][: min(3, n)]
+    else:                                # "dominant-diagonal": what DMRG local problems look like
+        ev = None
+    if ev is not None:
+        A = (Q * ev[None, :]) @ Q.conj().T
+    else:
+        B = rng.standard_normal((n, n)) + (1j * rng.standard_normal((n, n)) if cplx else 0)
+        A = np.diag(np.sort(rng.uniform(-3, 3, size=n))) + 0.05 * (B + B.conj().T)
+    A = (A + A.conj().T) / 2
+    if not cplx:
+        A = A.real
+    w = np.linalg.eigvalsh(A)
+    hdiag = np.real(np.diag(A)).copy()
+    guesses = [rng.standard_normal(n) + (1j * rng.standard_normal(n) if cplx else 0) for _ in range(nroots)]
+    key = ("dav", family, n, cplx, nroots, seed)
+    fields = {"family": family, "complex": bool(cplx), "nroots": nroots}
+    rp = {"family": family, "n": n, "complex": bool(cplx), "nroots": nroots, "seed": seed,
+          "how": "props.C18.worker_dav(case, Ledger()) regenerates the Hermitian matrix and the guesses from the case tuple"}
+    try:
+        e, c = davidson(lambda x: A @ x, [g.copy() for g in guesses], lambda x, e_, *a: x / (hdiag - e_ + 1e-4), max_cycle=100, nroots=nroots, max_memory=64000)
+    except Exception as ex:
+        led.check(False, "post:davidson:returns", "davidson", f"raised {type(ex).__name__}: {ex}", key, fields, rp, n > nroots)
+        return
+    led.ok("post:davidson:returns", "davidson", key + ("returns",), n > nroots)
+    es = np.atleast_1d(np.asarray(e, dtype=float))
+    cs = [np.asarray(c)] if nroots == 1 and np.asarray(c).ndim == 1 else [np.asarray(x) for x in c]
+    scale = max(1.0, float(np.abs(w).max()))
+    rs = []
+    rs.append(("post:davidson:number_of_roots", len(es) == min(nroots, n) and len(cs) == len(es), lambda: f"{len(es)} values, {len(cs)} vectors for nroots={nroots}, n={n}"))
+    k = min(len(es), len(cs))
+    if k:
+        # what holds whether or not the iteration converged (it need not, for matrices that are far from diagonal): Ritz pairs of an orthonormal basis
+        ray = max(abs(float(np.real(np.vdot(cs[i], A @ cs[i]) / max(np.vdot(cs[i], cs[i]).real, 1e-300))) - es[i]) for i in range(k))
+        rs.append(("post:davidson:values_are_rayleigh_quotients_of_the_vectors", ray <= 1e-8 * scale, lambda: f"|<x|A|x>/<x|x> - e| = {ray:.3e}"))
+        low = float(np.max(w[:k] - np.sort(es[:k])))
+        rs.append(("post:davidson:values_are_upper_bounds_of_the_lowest_levels", low <= 1e-9 * scale,
+                   lambda: f"returned {np.sort(es[:k])} fall below the exact lowest levels {w[:k]} by {low:.3e} (Cauchy interlacing)"))
+        if family == "dominant-diagonal":
+            # the matrices the optimisers produce (diagonal preconditioner effective): converged eigenpairs of the lowest levels
+            res = max(float(np.linalg.norm(A @ cs[i] - es[i] * cs[i]) / max(np.linalg.norm(cs[i]), 1e-300)) for i in range(k))
+            rs.append(("post:davidson:eigenpairs", res <= 1e-5 * scale, lambda: f"largest residual |A x - e x| / |x| = {res:.3e}"))
+            off = float(np.max(np.abs(np.sort(es[:k]) - w[:k])))
+            rs.append(("post:davidson:lowest_levels_found", off <= 1e-6 * scale, lambda: f"returned {np.sort(es[:k])}, exact lowest {w[:k]} (difference {off:.3e})"))
+        G = np.array([[np.vdot(cs[i], cs[j]) for j in range(k)] for i in range(k)])
+        orth = float(np.abs(G - np.eye(k)).max())
+        rs.append(("post:davidson:vectors_orthonormal", orth <= 1e-6, lambda: f"|X^H X - 1| = {orth:.3e}"))
+    _emit(led, rs, "davidson", key, fields, lambda: rp, n > nroots)
+
+
 # =========================================================================================================================
 def worker(case, led):
     np.random.seed(zlib.crc32(repr(case).encode()))     # add_orthonormal_basis draws from the global RNG: make it reproducible
     tag = case[0]
     if tag == "kry":
         worker_kry(case, led)
+    elif tag == "dav":
+        worker_dav(case, led)
     elif tag == "qnx":
         worker_qnx(case, led)
     elif tag == "qnr":
@@ -892,6 +959,14 @@ def enumerate_cases(run):
                     ics = range(len(COMBOS)) if not quick else sorted({(n + len(fam) + int(cplx) + s) % 4, (n + len(fam) + int(cplx) + s + 2 + n % 2) % 4})
                     for ic in ics:
                         cases.append(("kry", fam, n, cplx, ic, s, tier))
+    # Davidson eigensolver (matrix-free, diagonal preconditioner, 1..3 roots)
+    for s in seeds:
+        for fam in ("random", "degenerate", "clustered", "dominant-diagonal"):
+            for n in ((8, 40) if quick else (3, 8, 20, 40, 90)):
+                for cplx in (False, True):
+                    for nroots in (1, 2, 3):
+                        if nroots <= n:
+                            cases.append(("dav", fam, n, cplx, nroots, s, tier))
     # exhaustive label universe: one component, all ordered label assignments
     nk1 = 2 if quick else len(KINDS)
     for m in (1, 2, 3):
